@@ -12,7 +12,7 @@ from pyvc.contracts import (
 from pyvc.values import ExcV, Opaque, Opt, Ref, U, to_real
 
 from .a_common import F, is_none
-from .a_tasks import TC, calls, exts, flat, index_of
+from .a_tasks import TC, calls, exts, flat, index_of, only_propagates
 from .spec import b2z, implies
 
 B = z3.BoolVal
@@ -249,6 +249,20 @@ def register(R):
                 for e in c.trace if e.kind == 'ext' and e.name == 'leaky_bucket.unschedule')),
         }
 
+    def ctlb_iteration(l0, l1, evs):
+        """a completed iteration of the wait loop = a refused consume: the read then really waits, for exactly the time the
+        bucket asked for, before it tries again (without the wait the limiter would not limit anything)"""
+        cons = [e for e in evs if e.kind == 'ext' and e.name == 'leaky_bucket.consume']
+        sl = [e for e in evs if e.kind == 'ext' and e.name == 'time_utils.sleep']
+        refused = [e for e in cons if e.extra.get('raised') is not None]
+        okk = len(cons) == 1 and len(refused) == 1 and len(sl) == 1 and index_of(evs, sl[0]) > index_of(evs, cons[0])
+        out = {'a_refused_read_sleeps_once_before_retrying': B(bool(okk))}
+        if okk:
+            want = refused[0].extra['raised'].attrs.get('retry_time')
+            got = sl[0].args[0] if sl[0].args else None
+            out['sleeps_for_the_retry_time_the_bucket_asked_for'] = B(got is not None and (got is want or (want is None and got is not None)))
+        return out
+
     def ctlb_post(c):
         cons = [e for e in c.trace if e.kind == 'ext' and e.name == 'leaky_bucket.consume']
         return {
@@ -261,7 +275,7 @@ def register(R):
     R.contract(
         f'{BLS}._consume_through_leaky_bucket', props=['C13', 'C07'], params={},
         checks=ctlb_post, raises={'$stored': ctlb_raise},
-        loops={0: LoopSpec(invariant=lambda l: {})},
+        loops={0: LoopSpec(invariant=lambda l: {}, iteration_checks=ctlb_iteration)},
         raise_when={'Exception': lambda c: None},
     )
 
@@ -285,7 +299,7 @@ def register(R):
         f'{BLS}.read', props=['C13'], params=dict(amount=Int),
         requires=lambda c: [c.a_amount >= 0],
         checks=read_post,
-        raises={'Exception': lambda c: {}},
+        raises={'Exception': only_propagates},
         inline_callees=[],
     )
 
